@@ -78,7 +78,7 @@ def generate(rng, tier):
             tags.insert(rng.randrange(len(tags)), 0)
         yield {"fam": "infer", "tags": tags, "variant": 0, "pool": "equal"}
     for i in range(3000 if tier == "quick" else 40000):
-        yield {"fam": "result", "op": rng.choice(["add", "mul", "truediv", "radd", "join", "aggregate", "csv", "neg", "window", "scalar", "scalar", "rscalar", "tscalar", "dateadd", "dateadd", "datesub", "datecmp", "datejoin", "dateagg"]),
+        yield {"fam": "result", "op": rng.choice(["add", "mul", "truediv", "radd", "join", "joinwide", "joinwide", "aggwide", "aggregate", "csv", "neg", "window", "scalar", "scalar", "rscalar", "tscalar", "dateadd", "dateadd", "datesub", "datecmp", "datejoin", "dateagg"]),
                "a": [rng.choice([0, 1, 2, 3]) for _ in range(rng.randint(1, 5))], "seed": rng.randint(0, 10**6)}
 
 
@@ -319,6 +319,39 @@ def _result(spec):
             cols = t.cols()
             if not cols:
                 return {"skip": "empty join"}
+            r = rng.choice(cols)
+        elif op in ("joinwide", "aggwide"):
+            # operands whose *declared* dtype is wider than the rule gives for their present values (a None sliced or masked
+            # away, a None written and overwritten, to_object(), a declared nullable dtype): the result columns of joins,
+            # aggregates and windows are typed from the result's values, not from the operand's declaration
+            def widen(t, col, vals):
+                how = rng.choice(["slice", "mask", "rewrite", "object", "asis"])
+                if how == "slice":
+                    t2 = t << [None] * len(t.cols())
+                    return t2[0:len(t)]
+                if how == "mask":
+                    t2 = t << [None] * len(t.cols())
+                    return t2[[True] * len(t) + [False]]
+                if how == "rewrite" and len(t):
+                    c = t[col]
+                    keep = c[0]
+                    c[0] = None
+                    c[0] = keep
+                    return t
+                if how == "object":
+                    return Table({n: (c.to_object() if n == col else c) for n, c in zip(t.column_names(), t.cols())})
+                return t
+            aa = [x for x in a if x is not None] or [1]
+            L = widen(Table({"k": list(range(1, len(aa) + 1)), "x": aa}), "x", aa)
+            if op == "joinwide":
+                R = widen(Table({"k": [3, 2, 1], "y": [2.5, 4.5, 6.5]}), "y", None)
+                t = rng.choice([L.join, L.full_join, L.inner_join])(R, "k", "k", expect="many_to_many")
+            else:
+                L = widen(L, "k", None)
+                t = rng.choice([L.aggregate, L.window])(over="k", sum_over="x", max_over="x", min_over="x")
+            cols = t.cols()
+            if not cols:
+                return {"skip": "empty result"}
             r = rng.choice(cols)
         elif op in ("aggregate", "window"):
             t = Table({"k": [rng.choice([1, 2, None]) for _ in a], "x": a})
